@@ -232,7 +232,7 @@ func xlateDispatch(repo, out string) {
 							n := len(is.Body.List)
 							lastSt := is.Body.List[n-1]
 							switch {
-							case elseOK && onlyLogs(is.Body.List[:n-1]) && isRetErr(lastSt) && is.Else == nil:
+							case elseOK && onlyLogs(is.Body.List[:n-1]) && isRetErr(lastSt):
 								row.errMode = 1
 							case elseOK && onlyLogs(is.Body.List[:n-1]):
 								if inner, ok := lastSt.(*ast.IfStmt); ok && inner.Else == nil && inner.Init == nil &&
